@@ -129,7 +129,7 @@ func (r *refModel) compare(m *model.Model) []string {
 	want := map[string]string{}
 	for q, v := range r.leaves {
 		want[q] = v
-		if l, ok := m.Leaves[q]; ok && l.Key && l.Val != v && untag(l.Val) == untag(v) {
+		if l, ok := m.Leaves[q]; ok && l.Key && l.Val != v && untag(l.Val) == untag(v) && !gen.UnrestrictedStringFirst(gen.EffType(l.Schema)) {
 			want[q] = l.Val
 		}
 	}
@@ -323,6 +323,22 @@ func c13Draw(r *simrt.Rng, vg *gen.G, s *treeState, faults bool) (Op, bool) {
 		if u, e, ok := mk("update"); ok {
 			upds = append(upds, u)
 			effs = append(effs, e)
+		}
+	}
+	// a message may write the same path more than once (telemetry batches do): repeat one
+	// of the scalar updates at the end, so that something else lies between the two writes
+	if len(upds) >= 2 && r.Intn(3) == 0 {
+		nu := len(effs) - len(upds)
+		var idx []int
+		for i := 0; i < len(upds)-1; i++ {
+			if t := effs[nu+i].Target; t == "leaf" || t == "leaf-list" {
+				idx = append(idx, i)
+			}
+		}
+		if len(idx) > 0 {
+			i := idx[r.Intn(len(idx))]
+			upds = append(upds, upds[i])
+			effs = append(effs, effs[nu+i])
 		}
 	}
 	if len(dels)+len(reps)+len(upds) == 0 {
@@ -606,6 +622,20 @@ func c13Apply(s *treeState, schema *ytypes.Schema, op Op) *Violation {
 	}
 	for k := range kinds {
 		s.st.Probes["effect:"+k]++
+	}
+	seenPut := map[string]int{}
+	for _, e := range effs {
+		if e.Kind == "update" && (e.Target == "leaf" || e.Target == "leaf-list") {
+			for q := range e.Put {
+				seenPut[q]++
+			}
+		}
+	}
+	for _, n := range seenPut {
+		if n > 1 {
+			s.st.Probes["same_path_written_twice"]++
+			break
+		}
 	}
 	if len(effs) > 1 {
 		s.st.Probes["multi_step_request"]++
